@@ -627,7 +627,8 @@ def rule_codec(ctx: Ctx):
                     else:
                         if inc:
                             ok = len(calls) == 1 and codec_base(calls[0].base, env) and calls[0].args and calls[0].args[0] == ("const", empty) \
-                                and any(a == ("kw", "final", ("const", True)) for a in calls[0].args)
+                                and (any(a == ("kw", "final", ("const", True)) for a in calls[0].args)
+                                     or (len(calls[0].args) == 2 and calls[0].args[1] == ("const", True)))
                             ok = ok and len(ems) == 2 and ems[0].method == "on_next" and ems[0].eff.arg == calls[0].result and ems[1].method == "on_completed"
                         else:
                             ok = not calls and len(ems) == 1 and ems[0].method == "on_completed"
@@ -647,9 +648,12 @@ def rule_codec(ctx: Ctx):
         if isinstance(node, ast.Call) and dotted_name(node.func) in ("rs.data.encode", "rs.data.decode"):
             n += 1
             r.instances += 1
-            kws = {k.arg for k in node.keywords}
-            args = [ast.unparse(a) for a in node.args]
-            r.ob("incremental" not in kws and args[:1] == ["encoding"] and len(args) == 1, lambda node=node: Finding(
+            given = {"encoding": ast.unparse(node.args[0])} if node.args else {}
+            if len(node.args) > 1:
+                given["incremental"] = ast.unparse(node.args[1])
+            for k in node.keywords:
+                given[k.arg] = ast.unparse(k.value)
+            r.ob(given == {"encoding": "encoding"}, lambda node=node: Finding(
                 "CD-1", "rxsci/container/json.py{%s}" % ast.unparse(node), jm.where(node),
                 "json files must be encoded/decoded incrementally with the encoding parameter; call: %s" % ast.unparse(node)))
     r.ob(n >= 2, lambda: Finding("CD-1", "rxsci/container/json.py{codec-stages}", "rxsci/container/json.py:1",
